@@ -46,9 +46,19 @@ def check(rep, tier, seed, replay):
     for p in progs:
         for lim in ([rng.choice(ladder), ladder[-1]] if tier != "thorough" else rng.sample(ladder, 4)):
             lines.append(f"rec {lim} | {p}")
-    impl = core.run_harness(lines)
-    model = core.run_driver(lines)
-    mism = diff_streams(rep, lines, impl, model)
+    # the Python-facing wrapper py_quick_term_or_rec (Boolean) on a fifth of the cases
+    wl = [l.replace("rec ", "recpy ", 1) for l in lines[::5] if l.startswith("rec ")]
+    impl_all = core.run_harness(lines + wl)
+    model_all = core.run_driver(lines + wl)
+    impl, model = impl_all[:len(lines)], model_all[:len(lines)]
+    mism = diff_streams(rep, lines + wl, impl_all, model_all)
+    by_line = dict(zip(lines, impl))
+    for l, o in zip(wl, impl_all[len(lines):]):
+        r = by_line[l.replace("recpy ", "rec ", 1)]
+        want = "true" if r in ("recur", "spinout") else "false"
+        if o in ("true", "false") and o != want:
+            rep.violation("oracle", {"case": l, "impl": o, "why": f"the wrapper's Boolean contradicts the verdict {r} of quick_term_or_rec on the same input"})
+    rep.cov["wrapper_cases"] = len(wl)
     kinds = {}
     # --- oracle
     steps_q = [l.replace("rec ", "rec_steps ", 1) for l, o in zip(lines, impl) if o == "recur"]
